@@ -61,6 +61,22 @@
 /*
     TIME FUNCTIONS
  */
+/* psDiffMsecs returns an int32: an interval of more than 24.8 days does not
+   fit.  Report the largest (smallest) value instead of wrapping around, so
+   that "older than" tests stay true for old time stamps. */
+static int32 psSaturateMsecs(int64_t msecs)
+{
+    if (msecs > 0x7fffffffLL)
+    {
+        return 0x7fffffff;
+    }
+    if (msecs < -0x7fffffffLL)
+    {
+        return -0x7fffffff;
+    }
+    return (int32) msecs;
+}
+
 # ifndef USE_HIGHRES_TIME
 /******************************************************************************/
 /*
@@ -118,10 +134,11 @@ int32 psDiffMsecs(psTime_t then, psTime_t now, void *userPtr)
         /* borrow 1 second worth of usec */
         now.psTimeInternal.tv_usec += 1000000;
     }
-    return (int32) ((now.psTimeInternal.tv_sec - then.psTimeInternal.tv_sec)
-            * 1000) +
-           ((now.psTimeInternal.tv_usec - then.psTimeInternal.tv_usec) /
-            1000);
+    return psSaturateMsecs(
+            ((int64_t) now.psTimeInternal.tv_sec - then.psTimeInternal.tv_sec)
+            * 1000 +
+            ((now.psTimeInternal.tv_usec - then.psTimeInternal.tv_usec) /
+            1000));
 }
 
 int32 psCompareTime(psTime_t a, psTime_t b, void *userPtr)
@@ -175,8 +192,9 @@ int32 psGetTime(psTime_t *t, void *userPtr)
 
 int32 psDiffMsecs(psTime_t then, psTime_t now, void *userPtr)
 {
-    return (int32) (((now.psTimeInternal - then.psTimeInternal) *
-            hiresFreq.numer) / (hiresFreq.denom * 1000000));
+    return psSaturateMsecs((int64_t) (((now.psTimeInternal -
+            then.psTimeInternal) * hiresFreq.numer) /
+            (hiresFreq.denom * 1000000)));
 }
 
 int64_t psDiffUsecs(psTime_t then, psTime_t now)
@@ -223,12 +241,13 @@ int32 psDiffMsecs(psTime_t then, psTime_t now, void *userPtr)
         /* borrow 1 second worth of nsec */
         now.psTimeInternal.tv_nsec += 1000000000L;
         }
-        return (int32) ((now.psTimeInternal.tv_sec -
+        return psSaturateMsecs(
+               ((int64_t) now.psTimeInternal.tv_sec -
                 then.psTimeInternal.tv_sec) *
-                1000) +
+                1000 +
                ((now.psTimeInternal.tv_nsec -
                  then.psTimeInternal.tv_nsec) /
-                1000000);
+                1000000));
     }
 
     int64_t psDiffUsecs(psTime_t then, psTime_t now)
